@@ -6,6 +6,15 @@ from elexmodel.distributions.GaussianModel import GaussianModel
 from elexmodel.models.ConformalElectionModel import ConformalElectionModel, PredictionIntervals
 
 
+def normal_quantile(q, mean, sd):
+    """
+    Quantile of a normal distribution. If the standard deviation is zero (e.g. all conformalization scores of a
+    group are identical) this is the mean, where scipy would return nan
+    """
+    sd = np.asarray(sd, dtype=float)
+    return np.where(sd > 0, stats.norm.ppf(q=q, loc=mean, scale=np.where(sd > 0, sd, 1.0)), mean)
+
+
 class GaussianElectionModel(ConformalElectionModel):
     def __init__(self, model_settings: dict):
         super().__init__(model_settings)
@@ -269,10 +278,8 @@ class GaussianElectionModel(ConformalElectionModel):
             ub_sd=lambda x: x.sigma_upper_bound
             * np.sqrt(x.nonreporting_weight_ssum + x.var_inflate * np.power(x.nonreporting_weight_sum, 2)),
         ).assign(
-            lb=lambda x: x.nonreporting_aggregate_lower_bound
-            - stats.norm.ppf(q=quantile, loc=x.lb_mean, scale=x.lb_sd),
-            ub=lambda x: x.nonreporting_aggregate_upper_bound
-            + stats.norm.ppf(q=quantile, loc=x.ub_mean, scale=x.ub_sd),
+            lb=lambda x: x.nonreporting_aggregate_lower_bound - normal_quantile(quantile, x.lb_mean, x.lb_sd),
+            ub=lambda x: x.nonreporting_aggregate_upper_bound + normal_quantile(quantile, x.ub_mean, x.ub_sd),
         )[
             aggregate + ["lb", "ub"]
         ]
